@@ -14,7 +14,7 @@
 //	text atoms: byte c from character data, c+1000 when the byte comes from a CDATA section
 //	attribute value atoms: literal byte c, c+1000 when produced by a character/entity reference
 //
-// usage: c06 <cases.ndjson> <trace.ndjson> <meta.ndjson>      |      c06 -show [-keep] <file or ->   (human readable)
+// usage: c06 <cases.ndjson> <trace.ndjson> <meta.ndjson>   |   c06 -buffer <histories.ndjson> <trace.ndjson>   |      c06 -show [-keep] <file or ->   (human readable)
 package main
 
 import (
@@ -30,6 +30,8 @@ import (
 
 	"github.com/tdewolff/minify/v2"
 	mxml "github.com/tdewolff/minify/v2/xml"
+	"github.com/tdewolff/parse/v2"
+	pxml "github.com/tdewolff/parse/v2/xml"
 	"verifharness/lib"
 )
 
@@ -465,7 +467,61 @@ func show(e Ev) string {
 	return s
 }
 
+// BufCase is one call history for the real xml.TokenBuffer (spec/XmlBuffer.tla): ops[j] = -1 Shift, i >= 0 Peek(i),
+// over a stream of n tokens (comments <!--1--> .. <!--n-->); rets[j] = number of the token returned, 0 = ErrorToken.
+type BufCase struct {
+	N    int   `json:"n"`
+	Ops  []int `json:"ops"`
+	Rets []int `json:"rets"`
+}
+
+func tokNum(t *mxml.Token) int {
+	if t.TokenType == pxml.ErrorToken {
+		return 0
+	}
+	if t.TokenType != pxml.CommentToken || len(t.Data) < 7 {
+		return -2
+	}
+	n, err := strconv.Atoi(string(t.Data[4 : len(t.Data)-3]))
+	if err != nil {
+		return -2
+	}
+	return n
+}
+
+func runBuffer(c BufCase) BufCase {
+	var doc bytes.Buffer
+	for i := 1; i <= c.N; i++ {
+		fmt.Fprintf(&doc, "<!--%d-->", i)
+	}
+	c.Rets = []int{}
+	lib.Guard(func() {
+		z := parse.NewInput(bytes.NewReader(doc.Bytes()))
+		tb := mxml.NewTokenBuffer(pxml.NewLexer(z))
+		for _, op := range c.Ops {
+			if op < 0 {
+				c.Rets = append(c.Rets, tokNum(tb.Shift()))
+			} else {
+				c.Rets = append(c.Rets, tokNum(tb.Peek(op)))
+			}
+		}
+	})
+	return c
+}
+
 func main() {
+	if len(os.Args) == 4 && os.Args[1] == "-buffer" {
+		tw := lib.NewTraceWriter(os.Args[3])
+		lib.ReadJSONLines(os.Args[2], func(line []byte) {
+			var c BufCase
+			if err := json.Unmarshal(line, &c); err != nil {
+				lib.Fatal("bad case: %v", err)
+			}
+			tw.Emit(runBuffer(c))
+		})
+		tw.Close()
+		return
+	}
 	if len(os.Args) >= 3 && os.Args[1] == "-show" {
 		keep := false
 		arg := os.Args[2]
